@@ -316,3 +316,59 @@ func vfC14HighZoom(c int) {
 	}
 	vfAssert("highzoom-nothing-outside-the-rectangle", len(set) == int(w+1)*int(h+1))
 }
+
+// ---- polygons whose vertices sit exactly on tile column/row edges: every start vertex, both directions ----
+// The scan fill depends on the boundary trace, whose bookkeeping at the first/closing vertex is
+// position dependent: the cover must not depend on which vertex the ring starts at or on its
+// direction, must raise no error, and must contain every tile whose centre is inside (concrete).
+
+var vfEdgeRings = [][]orb.Point{
+	{{0, 10}, {15, -20}, {-25, -5}, {-20, 30}},
+	{{45, 0}, {60, 40}, {20, 50}, {10, -30}},
+	{{-90, -10}, {-60, 20}, {-120, 35}, {-135, -45}},
+	{{0, 0}, {90, 0}, {90, 66.51326044311186}, {0, 66.51326044311186}}, // corners on tile corners at zoom 2..
+}
+
+func vfC14Rotations_N(tier int) int { return len(vfEdgeRings) * 4 * 2 * 3 }
+func vfC14Rotations_Label(c int) string {
+	return "ring#" + strconv.Itoa(c/24) + " start=" + strconv.Itoa(c%4) + " dir=" + []string{"as listed", "reversed"}[(c/4)%2] + " zoom=" + strconv.Itoa(3+(c/8)%3)
+}
+
+func vfRotRing(base []orb.Point, start int, rev bool) orb.Ring {
+	n := len(base)
+	r := make(orb.Ring, 0, n+1)
+	for i := 0; i < n; i++ {
+		k := (start + i) % n
+		if rev {
+			k = (start - i + 2*n) % n
+		}
+		r = append(r, base[k])
+	}
+	return append(r, r[0])
+}
+
+func vfC14Rotations(c int) {
+	base := vfEdgeRings[c/24]
+	start, rev, z := c%4, (c/4)%2 == 1, maptile.Zoom(3+(c/8)%3)
+	ring := vfRotRing(base, start, rev)
+	set, err := Polygon(orb.Polygon{ring}, z)
+	vfReach("rotations")
+	vfAssert("edge-ring-no-error", err == nil)
+	ref, err0 := Polygon(orb.Polygon{vfRotRing(base, 0, false)}, z)
+	vfAssert("edge-ring-reference-no-error", err0 == nil)
+	if err != nil || err0 != nil {
+		return
+	}
+	vfAssert("cover-independent-of-start-and-direction-size", len(set) == len(ref))
+	for t := range ref {
+		vfAssert("cover-independent-of-start-and-direction", set[t])
+	}
+	n := 1 << uint(z)
+	for x := 0; x < n; x++ {
+		for y := 0; y < n; y++ {
+			if vfCentreIn(ring, z, x, y) {
+				vfAssert("edge-ring-tile-with-centre-inside-covered", set[maptile.Tile{X: uint32(x), Y: uint32(y), Z: z}])
+			}
+		}
+	}
+}
